@@ -81,6 +81,14 @@ def run(res, tier, replay):
                 b[pos] ^= 1 << rng.randrange(8)
             dops = ["x%d" % rng.randrange(len(names) + 1) for _ in range(3)] + ["F" + rng.choice(names).hex()]
             cases.append((bytes(b), rng.random() < 0.7, dops))
+        if i % 5 == 0:
+            # 64-bit header fields with the top bit set (file length, directory offset): off_t is signed
+            import struct as _st
+            hs0 = _st.unpack_from("<Q", chm, 0x38)[0]
+            for pos in (hs0 + 15, 0x38 + 23, 0x38 + 7):
+                if pos < len(chm):
+                    b = bytearray(chm); b[pos] ^= 0x80
+                    cases.append((bytes(b), True, ["x0", "F" + names[0].hex()]))
     # ---- oracle on the implementation
     trs = scenario.run_scenarios(iexe, [w[5] for w in wf])
     nbad = 0
